@@ -24,6 +24,11 @@ fn main() {
    for case in read_cases() {
       let input: Vec<i64> = case["input"].as_array().unwrap().iter().map(|v| v.as_i64().unwrap()).collect();
       let input32: Vec<i32> = input.iter().map(|&v| v as i32).collect();
+      // narrow columns for `mean`: the mean is defined on the rationals, so it may not depend on whether the SUM fits the
+      // column type (i16: the values scaled by 10000, whenever they all fit) nor on the column's own rounding (f32: the value 3
+      // stands for 2^24, next to which 1 is below the f32 resolution)
+      let input16: Option<Vec<i16>> = input.iter().map(|&v| i16::try_from(v * 10000).ok()).collect();
+      let inputf32: Vec<f32> = input.iter().map(|&v| if v == 3 { 16777216.0 } else { v as f32 }).collect();
       let mut o = json!({"input": input});
       // three iterator flavours
       for (flavour, name) in [(0, "exact"), (1, "inexact"), (2, "nohint")] {
@@ -53,6 +58,11 @@ fn main() {
          r["sum"] = res(guarded(|| sum(it!(input)).collect::<Vec<i64>>()));
          r["count"] = res(guarded(|| count(unit_it!(input)).collect::<Vec<usize>>()));
          r["mean"] = res(guarded(|| mean(it!(input32)).collect::<Vec<f64>>()));
+         r["mean16"] = match &input16 {
+            Some(v) => res(guarded(|| mean(it!(v)).collect::<Vec<f64>>())),
+            None => Value::Null,
+         };
+         r["meanf32"] = res(guarded(|| mean(it!(inputf32)).collect::<Vec<f64>>()));
          r["nott"] = res(guarded(|| not(unit_it!(input)).map(|_| 1).collect::<Vec<i32>>()));
          let mut pcts = vec![];
          for p in case["pct"].as_array().unwrap() {
